@@ -35,6 +35,9 @@ def cfg_text(budget, start, free, out, wrap=False, opsonly=False, leafalts=True,
             "SPECIFICATION Spec\nINVARIANT Emit\nCHECK_DEADLOCK FALSE\n") % (budget, tla_string(start), b(free), tla_string(out), b(wrap), b(opsonly), b(leafalts), dense)
 
 
+GEN_HEAP = "3g"      # per generator process; the thorough tier (longer tapes, larger queue) raises it and runs fewer side by side
+
+
 def generate(chk, name, budget, start, free, wd, **kw):
     out = os.path.join(wd, "tapes-%s.ndjson" % name)
     if os.path.exists(out):
@@ -42,7 +45,7 @@ def generate(chk, name, budget, start, free, wd, **kw):
     # ONE worker: a tape is longer than the 8 KB that one append writes atomically, and concurrent workers would interleave
     # their lines in OutFile (seen once in a thorough run: two tapes on one line, exit 2). Parallelism comes from running
     # the start symbols side by side.
-    r = tlc_must_pass("Grammar", cfg_text(budget, start, free, out, **kw), os.path.join(wd, "gen-" + name), workers=1, heap="3g",
+    r = tlc_must_pass("Grammar", cfg_text(budget, start, free, out, **kw), os.path.join(wd, "gen-" + name), workers=1, heap=GEN_HEAP,
                       timeout=9000, name="Grammar_" + name, many=True)
     chk.add_states(r)
     n = sum(1 for _ in open(out)) if os.path.exists(out) else 0
@@ -72,7 +75,9 @@ def corpora(chk, prop, tier, wd):
         for (start, free, depth, bq, bt) in DENSE:
             b = bq if tier == "quick" else bt
             jobs.append(lambda start=start, free=free, b=b, depth=depth: generate(chk, "dense-" + start, b, start, free, wd, dense=depth))
-    outs = common.parallel(jobs, 12)
+    global GEN_HEAP
+    GEN_HEAP = "3g" if tier == "quick" else "10g"
+    outs = common.parallel(jobs, 12 if tier == "quick" else 5)
     if tier == "thorough" and prop != "C07":
         # random deep derivations beyond the exhaustive budget (TLC -simulate on the same specification)
         for (start, free) in (("E12", False), ("QueryStatement", False), ("DDL", True), ("DML", True)):
